@@ -102,6 +102,10 @@ func ruleParseTime(c *Ctx) {
 		return
 	}
 	in := fn.Params[0]
+	pf := parseTimeByFold(P, fn)
+	if pf.ok {
+		ptEmitFold(c, fn, pf)
+	}
 	var dates []*ssa.Call
 	for _, cs := range callsIn(fn) {
 		if cs.Static != nil && qualName(cs.Static) == "time.Date" && cs.Value() != nil {
@@ -120,7 +124,19 @@ func ruleParseTime(c *Ctx) {
 	if !c.Anchor(full != nil && dateOnly != nil, "the two time.Date calls of parseTime (date-time and date-only)") {
 		return
 	}
+	if !pf.ok {
+		c.Note("the parser could not be folded on symbolic inputs (" + pf.why + "); PT-FIELDS, PT-SEP, PT-DATE and PT-REM are decided from the shape of parseTime itself")
+		ptStructural(c, fn, in, full, dateOnly)
+	}
+	ptRest(c, fn, in, full, dateOnly)
+}
+
+// ptStructural: PT-FIELDS, PT-SEP, PT-DATE and PT-REM read off the body of parseTime (used when the fold
+// cannot decide them).
+func ptStructural(c *Ctx, fn *ssa.Function, in *ssa.Parameter, full, dateOnly *ssa.Call) {
+	P := c.P
 	key := fnKey(fn)
+	c.Rule("PT-FIELDS", "the instant is assembled by time.Date from the digit fields at the RFC 3339 offsets, in the right argument order, each parsed without error", 9)
 	for _, f := range rfc3339Fields {
 		for _, form := range []struct {
 			name string
@@ -203,7 +219,11 @@ func ruleParseTime(c *Ctx) {
 		}
 		c.Check(ok, key+"/date-time/nothing-left", P.pos(full.Pos()), "the result is dominated by len(remaining) == 0", "a date-time can be accepted with unparsed bytes left over")
 	}
+}
 
+func ptRest(c *Ctx, fn *ssa.Function, in *ssa.Parameter, full, dateOnly *ssa.Call) {
+	P := c.P
+	key := fnKey(fn)
 	// ---- TS-FRAC
 	c.Rule("TS-FRAC", "the scale factor that is divided once per fraction digit is guarded inside the loop, so more than nine digits cannot drive it to zero and silently erase the fraction", 1)
 	{
@@ -973,4 +993,38 @@ func zoneOffsetArg(call *ssa.Call) ssa.Value {
 		return args[0]
 	}
 	return nil
+}
+
+// ptEmitFold turns the answers of the fold into the obligations of PT-FIELDS, PT-SEP, PT-DATE and PT-REM.
+func ptEmitFold(c *Ctx, fn *ssa.Function, pf *ptFold) {
+	key := fnKey(fn)
+	emit := func(k, good string) {
+		bad, seen := pf.problem[k]
+		switch {
+		case !seen:
+			c.Unk(key+"/"+k, pf.pos, "the fold gave no answer")
+		case bad == "":
+			c.OK(key+"/"+k, pf.pos, good+" (folded on symbolic inputs of 10, 20, 21, 25 and 26 bytes)")
+		default:
+			c.Bad(key+"/"+k, pf.pos, bad)
+		}
+	}
+	c.Rule("PT-FIELDS", "the instant is assembled by time.Date from the digit fields at the RFC 3339 offsets, in the right argument order, each parsed without error", 9)
+	for _, f := range rfc3339Fields {
+		emit("date-time/"+f.name, fmt.Sprintf("%s depends on exactly in[%d:%d] on every accepting path", f.name, f.lo, f.hi))
+		if f.dateOnly {
+			emit("date/"+f.name, fmt.Sprintf("%s depends on exactly in[%d:%d] on every accepting path", f.name, f.lo, f.hi))
+		}
+	}
+	c.Rule("PT-SEP", "a string is accepted only with the RFC 3339 separators at their fixed offsets", 7)
+	for _, s := range rfc3339Seps {
+		emit(fmt.Sprintf("date-time/sep@%d", s.pos), fmt.Sprintf("every accepting path found in[%d] == %q", s.pos, rune(s.ch)))
+		if s.dateOnly {
+			emit(fmt.Sprintf("date/sep@%d", s.pos), fmt.Sprintf("every accepting path found in[%d] == %q", s.pos, rune(s.ch)))
+		}
+	}
+	c.Rule("PT-DATE", "a ten-character date is midnight UTC of that day", 1)
+	emit("date/midnight-utc", "a 10-byte input ends in time.Date(y, m, d, 0, 0, 0, 0, time.UTC)")
+	c.Rule("PT-REM", "a date-time is accepted only when nothing is left over after the zone", 1)
+	emit("date-time/nothing-left", "no 21- or 26-byte input without a fraction is accepted")
 }
